@@ -459,7 +459,7 @@ def _b_tuple(interp, args, kwargs):
     if not args:
         return Tup([])
     v = args[0]
-    if isinstance(v, Tup):
+    if isinstance(v, Tup) or type(v).__name__ == "Node":     # a graph node is its coordinate tuple
         return v
     seq = iter_to_vec(interp, v)
     L = conc(seq.length)
@@ -1343,3 +1343,47 @@ def _deepcopy(interp, args, kwargs):
     if isinstance(v, (Num, Bool, Str, NoneV, Tup)):
         return v
     raise Unsupported(f"deepcopy of {type(v).__name__}")
+
+
+# ---------------------------------------------------------------------------------------------
+# itertools.combinations(range(n), 2): the pairs (i, j), i < j, in lexicographic order.  Assumed library contract, encoded with an
+# unranking pair (ci, cj) and its inverse `rank` (no triangular-number arithmetic): every position holds a pair i < j < n, every
+# such pair sits at exactly one position, positions are ordered lexicographically.
+# ---------------------------------------------------------------------------------------------
+
+@lib("itertools.combinations")
+def _it_combinations(interp, args, kwargs):
+    ctx = interp.ctx
+    seq = iter_to_vec(interp, args[0])
+    r = args[1] if len(args) > 1 else kwargs.get("r")
+    if not (isinstance(r, Num) and conc(r.z) == 2):
+        raise Unsupported("itertools.combinations with r != 2")
+    n = conc(seq.length)
+    if n is not None and n <= 8:
+        items = [vget(ctx, seq, i) for i in range(n)]
+        return Vec(n * (n - 1) // 2, kind="tuple", elem="obj", items=[Tup([items[i], items[j]]) for i in range(n) for j in range(i + 1, n)])
+    pk = ctx.int("probe")
+    ctx.binder_stack.append([])
+    try:
+        e = vget(ctx, seq, pk)
+    finally:
+        ctx.binder_stack.pop()
+    if not (isinstance(e, Num) and e.is_int and z3.is_true(z3.simplify(e.z == pk))):
+        raise Unsupported("itertools.combinations over something that is not range(n)")
+    nz = zint(seq.length)
+    T = ctx.int("n_pairs")
+    ci = ctx.func("comb_i", z3.IntSort(), z3.IntSort())
+    cj = ctx.func("comb_j", z3.IntSort(), z3.IntSort())
+    rank = ctx.func("comb_rank", z3.IntSort(), z3.IntSort(), z3.IntSort())
+    p, q, i, j = (z3.Int(ctx.fresh(x)) for x in "pqij")
+    ctx.assume(T >= 0)
+    ctx.assume(z3.ForAll([p], z3.Implies(z3.And(p >= 0, p < T), z3.And(0 <= ci(p), ci(p) < cj(p), cj(p) < nz, rank(ci(p), cj(p)) == p)),
+                         patterns=[ci(p), cj(p)]))
+    ctx.assume(z3.ForAll([i, j], z3.Implies(z3.And(0 <= i, i < j, j < nz), z3.And(0 <= rank(i, j), rank(i, j) < T, ci(rank(i, j)) == i, cj(rank(i, j)) == j)),
+                         patterns=[rank(i, j)]))
+    ctx.assume(z3.ForAll([p, q], z3.Implies(z3.And(p >= 0, p < q, q < T), z3.Or(ci(p) < ci(q), z3.And(ci(p) == ci(q), cj(p) < cj(q)))),
+                         patterns=[z3.MultiPattern(ci(p), ci(q))]))
+    out = Vec(T, lambda k: Tup([Num(ci(zint(k)), True), Num(cj(zint(k)), True)]), kind="tuple", elem="obj")
+    out.combinations_of = (nz, ci, cj, rank)
+    ctx.__dict__.setdefault("combinations", []).append(out.combinations_of + (T,))
+    return out
